@@ -64,6 +64,67 @@ def huge_trivia(ctx):
                 return
 
 
+def exact_gaps(ctx):
+    """one piece of trivia sized so that a token's start, its end, its distance from the previous token's start or its line number is EXACTLY a
+    power of two (2^4 .. 2^21; 2^24 in the thorough tier): where a position packed into a bit field, a 16/20/24-bit counter or a buffer of such a size
+    changes what the parser sees.  Every junction of the base text for the small sizes, the junctions after each kind of token for the large ones."""
+    from pyab_experiment.utils.wraper_functions import parse_source
+    toks = ["def", "e", "{", "salt", ":", '"s"', "splitters", ":", "u", ",", "v", "if", "not", "not", "x", "==", "1", "and", "y", "not in", "(", "2", ",", '"a"', ")",
+            "{", "return", '"a"', "weighted", "1", ",", "-", "2.5", "weighted", "3", "}", "else if", "x", "<", "1.5", "{", "return", "7", "weighted", "1", "}", "}"]
+    base_text = gen.join_tokens(toks)
+    base = common.canon_ast(common.quiet(lambda: parse_source(base_text))[0])
+    kmax = 24 if ctx.tier == "thorough" else 21
+    key_junctions = [i for i in range(1, len(toks)) if toks[i - 1] in ("not", '"s"', "u", "1", "==", "not in", "weighted", "-", "}", "return", "{", ",")][:14]
+
+    def gap(kind, g):
+        if g < 1:
+            return None
+        if kind == "blanks":
+            return " " * g
+        if kind == "tabs":
+            return "\t" * g
+        if kind == "newlines":
+            return "\n" * g
+        if kind == "block":
+            return "/*" + "x" * (g - 4) + "*/" if g >= 4 else None
+        if kind == "block-lines":
+            return "/*" + "\n" * (g - 4) + "*/" if g >= 4 else None
+        if kind == "line":
+            return "//" + "y" * (g - 3) + "\n" if g >= 3 else None
+        return None
+
+    for k in range(4, kmax + 1):
+        size = 1 << k
+        junctions = range(1, len(toks)) if k <= 12 else key_junctions
+        for j in junctions:
+            head = gen.join_tokens(toks[:j]).rstrip(" ")
+            tail = gen.join_tokens(toks[j:]).lstrip(" ")
+            prev_start = len(head) - len(toks[j - 1])
+            for align, g in (("distance-of-starts", size - len(toks[j - 1])), ("start", size - len(head)), ("end", size - len(head) - len(toks[j])),
+                             ("line-number", size - 1), ("length", size)):
+                kinds = ("newlines", "block-lines") if align == "line-number" else ("blanks", "block", "line", "tabs") if k <= 16 else ("blanks", "block")
+                if align == "line-number" and k > 20:
+                    continue
+                for kind in kinds:
+                    t = gap(kind, g)
+                    if t is None:
+                        continue
+                    text = head + t + tail
+                    try:
+                        a = common.canon_ast(common.quiet(lambda: parse_source(text))[0])
+                    except Exception as ex:  # noqa
+                        a = {"e": common.classify_exc(ex)}
+                    ctx.count("exact-gap:" + align)
+                    if a != base:
+                        ctx.case(("exact-gap", kind, align, k, j), True)
+                        ctx.violation(f"{g} characters of trivia ({kind}) between {toks[j - 1]!r} and {toks[j]!r}, placed so that the {align} of {toks[j]!r} is 2^{k}, change the "
+                                      f"experiment: it parses to {json.dumps(a)[:160]}",
+                                      {"kind": kind, "align": align, "power": k, "junction": j, "before": toks[j - 1], "after": toks[j], "gap_length": g,
+                                       "rebuild": "head + gap + tail of the base text", "base_text": base_text, "impl": a})
+                        return
+        ctx.case(("exact-gap", k), True)
+
+
 def run_batch(ctx, n, with_model=True):
     from pyab_experiment.utils.wraper_functions import parse_source
     from pyab_experiment.experiment_evaluator import ExperimentEvaluator
@@ -148,6 +209,7 @@ def run(ctx):
     ctx.notes.append("token boundaries are those of the documented token table: `else if` and `not in` are single tokens, so trivia inside them is not between tokens")
     run_batch(ctx, n)
     huge_trivia(ctx)
+    exact_gaps(ctx)
 
 
 def search(ctx):
